@@ -112,6 +112,7 @@ R = [
  (r"cursor\.go:DecodeExclusive:index:x\.(cache|wip)\[", "map access"),
  # ---------------- writer.go, types.go (sink path of C19)
  (r"writer\.go:Writer\.Close:assert:w\.origW\.\(io\.Closer\)", "guard: closeOrigW is set only by Create, which passes an *os.File"),
+ (r"writer\.go:Writer\.Close:index:w\.meta\.ID\[0\](?!#)$", "guard: first occurrence (fix D50): behind `len(w.meta.ID) != 2 ||` in the same condition"),
  (r"writer\.go:Writer\.Close:index:w\.meta\.ID\[[01]\]", "waiver: NewWriter stores nil or a two-element ID; a caller that replaces GetMeta().ID by a shorter slice makes Close panic (API misuse on the writing side, outside 'arbitrary input bytes'; recorded)"),
  (r"writer\.go:Writer\.OpenStream:index:", "map access"),
  (r"writer\.go:Writer\.WriteCompressed:index:objects\[N-1\]", "guard: len(objects) == 0 returns first and the splitting loop leaves at least one object, so N >= 1"),
@@ -133,7 +134,8 @@ out = []
 for k in keys:
     base = re.sub(r"#\d+$", "", k)
     for pat, reason in R:
-        if re.match(pat, base):
+        # a pattern that ends in "#n$" or "(?!#)$" addresses one occurrence and is matched against the full key
+        if re.match(pat, k if pat.endswith("$") and ("#" in pat) else base):
             out.append((k, reason))
             for m in re.finditer(r"(C05robbuf|C05rob|C19rob|C01g|C01h)\.([A-Za-z_][A-Za-z0-9_.]*)", reason):
                 lemma_refs.add(m.group(1) + "." + m.group(2).rstrip("."))
